@@ -40,10 +40,13 @@ def poison_body(k, kind):
     return ["", "   ", "\t", "10 = N 0 0", "", "  ", "20 = N 1 0"]
 
 
-def build(headers, bodies):
-    lines = section("Song", SONG) + section("SyncTrack", SYNC) + section("Events", EVENTS)
-    for h in headers:
-        lines += section(h, bodies[h])
+def build(headers, bodies, order=None):
+    """order: the file order of ALL sections (the three required ones may come after, or between, the tracks)."""
+    secs = {"Song": SONG, "SyncTrack": SYNC, "Events": EVENTS}
+    secs.update({h: bodies[h] for h in headers})
+    lines = []
+    for t in (order or ["Song", "SyncTrack", "Events"] + list(headers)):
+        lines += section(t, secs[t])
     return "\n".join(lines) + "\n"
 
 
@@ -65,8 +68,12 @@ def sel_record(r, cid, present, poison, want, form="list", kinds=3):
             ref_bodies[h] = benign_body(idx[h], variant=5)       # arbitrary OTHER content in the reference
         else:
             bodies[h] = ref_bodies[h] = benign_body(idx[h])
-    text = build(present, bodies)
-    ref_text = build(present, ref_bodies)
+    order = None
+    if kinds > 3 and r.random() < 0.5:
+        order = ["Song", "SyncTrack", "Events"] + list(present)
+        r.shuffle(order)
+    text = build(present, bodies, order)
+    ref_text = build(present, ref_bodies, order)
     return record_from_texts(cid, text, ref_text, present, poison, want, form)
 
 
